@@ -6,7 +6,16 @@ use crate::proj::*;
 use crate::run::*;
 use crate::Opts;
 use serde_json::{json, Value};
+use std::collections::hash_map::DefaultHasher;
+use std::collections::HashSet;
+use std::hash::{Hash, Hasher};
 use std::io::{BufRead, Write};
+
+fn hash_of(s: &str) -> u64 {
+    let mut h = DefaultHasher::new();
+    s.hash(&mut h);
+    h.finish()
+}
 
 /// Undo TLC's printing of a string value: "...", with \" \\ \n \t \r \f escapes.
 pub fn tlc_unquote(line: &str) -> Option<String> {
@@ -106,6 +115,8 @@ pub fn replay_parse(opts: &Opts) -> i32 {
     let (mut n, mut nfail, mut nunspec, mut nok, mut nrej) = (0u64, 0u64, 0u64, 0u64, 0u64);
     let mut samples: Vec<Value> = vec![];
     let mut passthrough = 0u64;
+    let mut seen: HashSet<u64> = HashSet::new();
+    let mut distinct_specified = 0u64;
     for line in stdin.lock().lines() {
         let line = match line { Ok(l) => l, Err(_) => continue };
         let js = match tlc_unquote(&line) {
@@ -132,6 +143,9 @@ pub fn replay_parse(opts: &Opts) -> i32 {
         };
         let exp = v.get("e").cloned().unwrap_or(json!({}));
         n += 1;
+        if seen.insert(hash_of(&input)) && exp.get("st").and_then(|x| x.as_str()) != Some("unspec") {
+            distinct_specified += 1;
+        }
         match exp.get("st").and_then(|x| x.as_str()) {
             Some("unspec") => nunspec += 1,
             Some("ok") => nok += 1,
@@ -152,7 +166,7 @@ pub fn replay_parse(opts: &Opts) -> i32 {
         }
     }
     let _ = writeln!(out, "SUMMARY {}", json!({"vectors": n, "failures": nfail, "unspec": nunspec,
-        "expected_ok": nok, "expected_rej": nrej, "samples": samples}));
+        "expected_ok": nok, "expected_rej": nrej, "distinct": distinct_specified, "samples": samples}));
     0
 }
 
@@ -164,12 +178,14 @@ pub fn replay_tree(_opts: &Opts) -> i32 {
     let mut out = out.lock();
     let (mut n, mut nfail) = (0u64, 0u64);
     let mut samples: Vec<Value> = vec![];
+    let mut seen: HashSet<u64> = HashSet::new();
     for line in stdin.lock().lines() {
         let line = match line { Ok(l) => l, Err(_) => continue };
         let js = match tlc_unquote(&line) {
             Some(j) => j,
             None => { let _ = writeln!(out, "TLC {}", line); continue; }
         };
+        seen.insert(hash_of(&js));
         let v: Value = match serde_json::from_str(&js) {
             Ok(v) => v,
             Err(e) => { let _ = writeln!(out, "BADJSON {} {}", e, js); continue; }
@@ -230,6 +246,6 @@ pub fn replay_tree(_opts: &Opts) -> i32 {
             }
         }
     }
-    let _ = writeln!(out, "SUMMARY {}", json!({"vectors": n, "failures": nfail, "samples": samples}));
+    let _ = writeln!(out, "SUMMARY {}", json!({"vectors": n, "failures": nfail, "distinct": seen.len(), "samples": samples}));
     0
 }
